@@ -13,9 +13,9 @@ vars == <<box, img, pat, op, arg, res, pc>>
 Boxes == {<<x0, x0 + nx, y0, y0 + ny>> : x0 \in XLo..XHi, y0 \in XLo..XHi, nx \in Sizes, ny \in Sizes}
 Init == /\ box \in Boxes /\ img \in ImgH \X ImgW /\ pat \in Patterns /\ pc = "call" /\ res = None
         /\ op \in {"to_image", "cutout", "multiply", "get_values"}
-        /\ arg \in CASE op \in {"cutout", "multiply"} -> Fills [] op = "get_values" -> {"nomask", "alt"} [] OTHER -> {"-"}
+        /\ arg \in CASE op \in {"cutout", "multiply"} -> Fills [] op = "get_values" -> {"nomask", "alt"} [] OTHER -> {"float", "int", "bool"}
 Apply ==
-  CASE op = "to_image" -> ToImageImpl(box, pat, img[1], img[2])
+  CASE op = "to_image" -> ToImageImpl(box, pat, img[1], img[2], arg)
     [] op = "cutout" -> [grid |-> CutoutImpl(box, img[1], img[2]), inside |-> FullyInside(box, img[1], img[2])]
     [] op = "multiply" -> MultiplyImpl(box, pat, img[1], img[2])
     [] op = "get_values" -> ValuesRef(box, pat, img[1], img[2], arg)
@@ -23,7 +23,7 @@ Return == pc = "call" /\ pc' = "ret" /\ res' = Apply /\ UNCHANGED <<box, img, pa
 Next == Return
 Spec == Init /\ [][Next]_vars
 Done == pc = "ret"
-InvToImage == Done /\ op = "to_image" => res = ToImageRef(box, pat, img[1], img[2])
+InvToImage == Done /\ op = "to_image" => res = ToImageRef(box, pat, img[1], img[2], arg)
 InvCutout == Done /\ op = "cutout" => res.grid = CutoutRef(box, img[1], img[2])
 InvMultiply == Done /\ op = "multiply" => res = MultiplyRef(box, pat, img[1], img[2])
 InvNoneIffNoOverlap == Done /\ op \in {"to_image", "multiply"} => (res = None <=> ~Overlap(box, img[1], img[2]))
